@@ -1,6 +1,7 @@
 """C20 — The C API is a faithful binding of the engine (structural part)."""
 from sa.facts import AnalysisBroken, expr_str, qmatch, strip_casts, relpath
 from sa import cfg
+import re
 from sa.flow import mentions, taint_closure, param_did, arg_nodes
 
 UNITS = ["products/libllbuild/Core-C-API.cpp", "products/libllbuild/BuildDB-C-API.cpp",
@@ -122,22 +123,47 @@ def run(ctx):
             r.violation(site, "%s no longer calls %s" % (cname, callee), f)
             continue
         t = taint_closure(f, {did})
-        good = False
+        tnames = {pname} | set(n.get("n") for n in f.nodes if n.get("k") in ("decl", "ref") and n.get("did") in t and n.get("n"))
+        bf = cfg.BranchFacts(f, kill="assign")
+
+        def selected_by_param(c):
+            # implicit flow: the call is reached only under a test of the parameter (e.g. a dedicated call for the
+            # empty value); the constant it passes then still derives from the parameter
+            st = bf.at_node(c) or frozenset()
+            if any(re.search(r"\b%s\b" % re.escape(nm), a) for a, _ in st for nm in tnames):
+                return True
+            for n in f.nodes:
+                if n.get("k") == "if" and mentions(n.child("c"), t):
+                    arms = [n.child(x) for x in ("then", "else") if x in n]
+                    if any(y is c for a in arms if a is not None for y in a.walk()):
+                        return True
+                    # early-out guard before the call
+                    if any(y.get("k") == "return" for a in arms if a is not None for y in a.walk()) and \
+                            (n.get("ln") or 0) < (c.get("ln") or 0):
+                        return True
+            return False
+        good = True
         why = ""
+        bad = calls[0]
         for c in calls:
+            # every call of the C++ counterpart must carry the role: a second, early-out call that drops it
+            # serves some inputs without the parameter's effect
             args = arg_nodes(c)
-            if idx >= len(args) or args[idx] is None:
+            if (idx >= len(args) or args[idx] is None) and not selected_by_param(c):
                 why = "argument #%d of %s is left to its default" % (idx, callee)
+                good, bad = False, c
+                break
+            if idx >= len(args) or args[idx] is None:
                 continue
             # a defaulted argument is materialised by clang as the default expr: it mentions nothing
-            if mentions(args[idx], t):
-                good = True
+            if not mentions(args[idx], t) and not selected_by_param(c):
+                why = "argument #%d of %s is '%s', which does not derive from '%s'" % (idx, callee, expr_str(args[idx])[:60], pname)
+                good, bad = False, c
                 break
-            why = "argument #%d of %s is '%s', which does not derive from '%s'" % (idx, callee, expr_str(args[idx])[:60], pname)
         if good:
             r.ok(site, "", f, calls[0])
         else:
-            r.violation(site, "%s: %s" % (cname, why), f, calls[0])
+            r.violation(site, "%s: %s" % (cname, why), f, bad)
 
     # ------------------------------------------------------------------
     r = rep.rule("R-CALLBACK-FORWARD",
@@ -175,6 +201,7 @@ def run(ctx):
                  "llb_data_t::length; llb_data_t values are built from size()/data() of one object; no strlen/c_str "
                  "on key or value bytes", floor=1)
     cfuncs = [f for f in prog.functions.values() if relpath(f.file) in (UNITS[0], UNITS[1])]
+    n_pairs = [0]
     for f in cfuncs:
         for n in f.nodes:
             k = n.get("k")
@@ -184,10 +211,11 @@ def run(ctx):
                 if not args or args[0] is None:
                     continue
                 a0 = args[0]
-                if any(x.get("k") == "member" and x.get("qn", "").endswith("llb_data_t::data") for x in a0.walk()):
+                d0 = strip_casts(a0)
+                if d0 is not None and d0.get("k") == "member" and re.search(r"llb_data_t_?::data$", d0.get("qn", "")):
                     site = "%s|string-from-data" % f.name
                     ok = len(args) >= 2 and args[1] is not None and any(
-                        x.get("k") == "member" and x.get("qn", "").endswith("llb_data_t::length") for x in args[1].walk())
+                        x.get("k") == "member" and re.search(r"llb_data_t_?::length$", x.get("qn", "")) for x in args[1].walk())
                     if ok:
                         base0 = expr_str([x for x in a0.walk() if x.get("k") == "member" and x.get("n") == "data"][0].child("b"))
                         base1 = expr_str([x for x in args[1].walk() if x.get("k") == "member" and x.get("n") == "length"][0].child("b"))
@@ -213,8 +241,26 @@ def run(ctx):
                 else:
                     ok = o0 is not None and o0 == o1
                 r.check(ok, site, "", "llb_data_t built from mismatched length/pointer: %s" % expr_str(n)[:80], f, n)
+            # C++ -> C : (pointer, count) argument pairs handed to a C callback come from one container
+            if k == "call" and n.get("fk") in ("indirect", "fnptr", None) or (k == "call" and "callee" in n):
+                args = arg_nodes(n)
+                for i, a in enumerate(args[:-1]):
+                    a_ = strip_casts(a) if a is not None else None
+                    if a_ is not None and a_.get("k") == "call" and (a_.get("fn") or "").split("::")[-1] == "data" and "obj" in a_ and \
+                            strip_casts(a_.child("obj")).get("k") == "ref":
+                        nxt = strip_casts(args[i + 1]) if args[i + 1] is not None else None
+                        ok = nxt is not None and nxt.get("k") == "call" and (nxt.get("fn") or "").split("::")[-1] == "size" and "obj" in nxt and \
+                            expr_str(nxt.child("obj")) == expr_str(a_.child("obj"))
+                        n_pairs[0] += 1
+                        r.check(ok, "%s|pointer-count-pair" % (f.name if not f.is_lambda else f.key), "",
+                                "array handed to a C callback with a count other than its size(): %s" % expr_str(n)[:100], f, n)
             if k == "call" and (n.get("fn") or "").split("::")[-1] in ("strlen",):
                 r.violation("%s|strlen" % f.name, "strlen on boundary data: %s" % expr_str(n)[:80], f, n)
+    n_sfd = sum(1 for o in r.instances if "string-from-data" in str(o.get("site") if isinstance(o, dict) else getattr(o, "site", "")))
+    if n_sfd < 5:
+        raise AnalysisBroken("R-NUL-SAFE: only %d strings built from llb_data_t::data found (5 confirmed by reading)" % n_sfd)
+    if n_pairs[0] < 1:
+        raise AnalysisBroken("R-NUL-SAFE: no (pointer,count) callback argument pair found (cycle_detected expected)")
     # keys/values handed to the engine must not go through c_str()
     for cname in ("llb_buildengine_build", "llb_buildengine_task_needs_input", "llb_buildengine_task_must_follow",
                   "llb_buildengine_task_discovered_dependency", "llb_buildengine_task_is_complete"):
@@ -317,3 +363,36 @@ def run(ctx):
     ok, w = cfg.must_pass_through(f, cfg.entry_pos(f), writes_err)
     r.check(ok, "llb_buildengine_attach_db|error_out", "assigned on every path", "a path returns without assigning *error_out", f, path=w)
     r.check(bool(f.calls("BuildEngine::attachDB")), "llb_buildengine_attach_db|attachDB", "", "database is never attached to the engine", f)
+
+
+CC = "products/libllbuild/Core-C-API.cpp"
+VARIANTS = [
+    dict(name="force-change-dropped", file=CC, old="  coreti->complete(std::move(result), force_change);", new="  coreti->complete(std::move(result));",
+         expect=("R-FORWARD-ROLE", "force_change")),
+    dict(name="empty-value-early-out-drops-force-change", file=CC,
+         old="  std::vector<uint8_t> result(value->length);\n  memcpy(result.data(), value->data, value->length);\n  coreti->complete(std::move(result), force_change);",
+         new="  if (value->length == 0 || value->data == nullptr) {\n    coreti->complete(ValueType());\n    return;\n  }\n  std::vector<uint8_t> result(value->length);\n  memcpy(result.data(), value->data, value->length);\n  coreti->complete(std::move(result), force_change);",
+         expect=("R-FORWARD-ROLE", "force_change")),
+    dict(name="benign-empty-value-early-out-keeps-force-change", file=CC,
+         old="  std::vector<uint8_t> result(value->length);\n  memcpy(result.data(), value->data, value->length);\n  coreti->complete(std::move(result), force_change);",
+         new="  if (value->length == 0) {\n    coreti->complete(ValueType(), force_change);\n    return;\n  }\n  std::vector<uint8_t> result(value->length);\n  memcpy(result.data(), value->data, value->length);\n  coreti->complete(std::move(result), force_change);",
+         expect=None),
+    dict(name="input-id-constant", file=CC, old="  coreti->request(KeyType((const char*)key->data, key->length), input_id);", new="  coreti->request(KeyType((const char*)key->data, key->length), 0);",
+         expect=("R-FORWARD-ROLE", "input_id")),
+    dict(name="needs-input-key-as-c-string", file=CC, old="  coreti->request(KeyType((const char*)key->data, key->length), input_id);", new="  coreti->request(KeyType((const char*)key->data), input_id);",
+         expect=("R-NUL-SAFE", "")),
+    dict(name="build-key-as-c-string", file=CC, old="  auto& result = engine->build(KeyType((const char*)key->data, key->length));", new="  auto& result = engine->build(KeyType((const char*)key->data));",
+         expect=("R-NUL-SAFE", "")),
+    dict(name="schema-version-constant", file=CC, old="                                  schema_version,\n", new="                                  1,\n", expect=("R-FORWARD-ROLE", "schema_version")),
+    dict(name="attach-error-not-reported-on-open-failure", file=CC, old="  if (!db) {\n    *error_out = strdup(error.c_str());\n    return false;\n  }", new="  if (!db) {\n    return false;\n  }",
+         expect=("R-ATTACH-DB", "error_out")),
+    dict(name="provide-value-input-id-dropped", file=CC, old="                               inputID, &valueData);", new="                               0, &valueData);", expect=("R-CALLBACK-FORWARD", "inputID")),
+    dict(name="is-result-valid-ignores-value", file=CC, old="    llb_data_t value_data{ value.size(), value.data() };\n      return rule.is_result_valid",
+         new="    llb_data_t value_data{ 0, nullptr };\n      return rule.is_result_valid", expect=("R-CALLBACK-FORWARD", "isResultValid")),
+    dict(name="status-constant", file=CC, old="                         (llb_rule_status_kind_t)status);", new="                         (llb_rule_status_kind_t)0);", expect=("R-CALLBACK-FORWARD", "status")),
+    dict(name="cycle-items-truncated-to-first", file=CC, old="    cAPIDelegate.cycle_detected(cAPIDelegate.context, keys.data(), keys.size());",
+         new="    cAPIDelegate.cycle_detected(cAPIDelegate.context, keys.data(), keys.empty() ? 0 : 1);", expect=("R-CALLBACK-FORWARD", "items")),
+    dict(name="benign-result-local-renamed", file=CC,
+         old="  std::vector<uint8_t> result(value->length);\n  memcpy(result.data(), value->data, value->length);\n  coreti->complete(std::move(result), force_change);",
+         new="  std::vector<uint8_t> bytes(value->length);\n  memcpy(bytes.data(), value->data, value->length);\n  coreti->complete(std::move(bytes), force_change);", expect=None),
+]
